@@ -1680,6 +1680,34 @@ impl<W: Clone + Seek + Write + FileExt> Sst<W> {
     }
 }
 
+/// Verification hook (compiled only with `--cfg blue_verif`): the byte regions of the file.
+#[cfg(blue_verif)]
+impl<W: Clone + Seek + Write + FileExt> Sst<W> {
+    /// (kind, start, limit, entries) for every data block, the index block, the filter block, the
+    /// final block and the trailing offset, in file order.
+    pub fn verif_regions(&self) -> Result<Vec<(&'static str, u64, u64, u64)>, SError> {
+        let mut regions = vec![];
+        for entry in self.index_entries.iter() {
+            let block = Self::load_block(&self.handle, &entry.metadata)?;
+            let mut cursor = block.cursor();
+            cursor.seek_to_first()?;
+            cursor.next()?;
+            let mut entries = 0u64;
+            while cursor.key().is_some() {
+                entries += 1;
+                cursor.next()?;
+            }
+            regions.push(("data", entry.metadata.start, entry.metadata.limit, entries));
+        }
+        let fb = &self.final_block;
+        regions.push(("index", fb.index_block.start, fb.index_block.limit, 0));
+        regions.push(("filter", fb.filter_block.start, fb.filter_block.limit, 0));
+        regions.push(("final", fb.final_block_offset, self.file_size - 8, 0));
+        regions.push(("trailer", self.file_size - 8, self.file_size, 0));
+        Ok(regions)
+    }
+}
+
 ///////////////////////////////////////// BlockCompression /////////////////////////////////////////
 
 /// An enum matching the types of compression supported.
